@@ -44,7 +44,7 @@ add('C01', ['C01Spec', 'C01', 'C01b', 'C01c', 'C01d', 'C01e', 'C01f'], ['corr.do
 add('C02', ['C02Block', 'C02Inline', 'C02X', 'C02Big'], PIPE + ['corr.extract', 'corr.code', 'corr.attrlist', 'corr.pipelinex'],
     'Lean 4 termination proofs: the fuel bounds of the block parser (and of the inline engine) always suffice — `parseDocument` is total for every input; total pipeline model tied by end-to-end correspondence; broad search for exceptions/timeouts',
     'PARTIAL: proved for the core pipeline model on text without `<`; the stdlib HTML tokenizer, unmodelled extensions and CPython\'s recursion limit (F-C02-3) are outside the theorems — for them only the search speaks.')
-add('C03', ['C03Code', 'C03', 'C03Fenced'], ['corr.code', 'corr.pipelinex'] + PIPE,
+add('C03', ['C03Code', 'C03', 'C03Fenced', 'C03X'], ['corr.code', 'corr.pipelinex'] + PIPE,
     'Lean 4 proofs: code_escape composed with the serializer escapes exactly once and reads back to the body (for all strings); fenced-code recogniser/stash theorems; code text carried through the pipeline model',
     'PARTIAL: the stdlib tokenizer is not modelled (F-C03-1 lives there); "whatever surrounds the code" is proved for the placements named in Props/C03*.lean, the others are covered by correspondence and search.')
 add('C04', ['C04', 'C04Text'], ['corr.extract', 'corr.htmltok', 'corr.pipelineh'],
@@ -68,7 +68,7 @@ add('C09', ['C09', 'C09Doc', 'C09X'], ['corr.normalize', 'corr.pipeline', 'corr.
 add('C10', ['C10', 'C10b', 'C10c', 'C10X', 'C10XPost', 'C10XTree', 'C10XToc', 'C10XTocAttr', 'C10XLate', 'C10XRaw', 'C10XC', 'C10XBlock', 'C10XCAll', 'C10XFn', 'C10XFnLeak', 'C09'], PIPE + ['corr.pipelinex'],
     'Lean 4 proofs: input cannot forge placeholders (normalisation strips STX/ETX), post-conditions of every restore step, placeholder invariants of the inline model on the pattern subset that cannot leak; the model leaks where the code leaks (kernel-checked)',
     'PARTIAL: link/reference/image/autolink/html/entity patterns and extensions are outside the proved subset (F-C10-1/2/3 live there).')
-add('C11', ['C11', 'C11Census'], [],
+add('C11', ['C11', 'C11Census', 'C11X'], ['corr.instancex'],
     'Lean 4 frame theorem on an abstract instance state machine (reset re-establishes the fresh state for every non-raising history) + census theorems decided by the kernel over tables regenerated from the source AST: every conversion-time write to instance state is re-initialised by reset() or on a justified allow-list',
     'PARTIAL: the abstract model takes `convert` as a parameter; that the census categories are the right reading of the code is checked dynamically by the oracle (fresh vs reset instances, attribute census). F-C11-1 was repaired (fix: commit f86514b): reset() clears parser.state, the theorems hold for every history; the pre-repair reset is kept as a labelled counterexample.')
 add('C12', ['C12', 'C11Census'], [],
